@@ -295,9 +295,12 @@ def run_perm(cfg):
                 tag = "" if step == 0 else "/after-refit"
                 yk = _yarr(labs, 2)
                 Xk = numpy.arange(len(yk) * 1.0).reshape(-1, 1)
-                r = clf.fit(Xk, yk)
+                # fit parameters: constant (not 1) or varying weights reach the inner classifier as given
+                wk = None if not cfg.get("clfw") else (numpy.full(len(yk), 2.0) if cfg["clfw"] == "const" else numpy.arange(len(yk)) + 1.0)
+                r = clf.fit(Xk, yk) if wk is None else clf.fit(Xk, yk, sample_weight=wk)
                 e.prove(r is clf, "clf/fit-returns-self")
                 inner = clf.classifier_
+                e.prove(inner.seen_[2] is wk or (wk is not None and inner.seen_[2] is not None and numpy.array_equal(inner.seen_[2], wk)), "clf/trained-with-the-caller's-sample_weight" + tag)
                 if tobj is not None:
                     e.prove(clf.transformer_ is not tobj and not hasattr(tobj, "permutation_"), "clf/the-transformer-parameter-is-cloned-never-fitted")
                 perm = dict(clf.transformer_.permutation_)
@@ -391,6 +394,18 @@ def _replay_perm(cfg, inputs, label):
             return True, dict(labels=list(map(str, labs)), raised=f"{type(ex).__name__}: {str(ex)[:200]}")
         return False, "no exception"
     history = [labels] + ([LABELSETS[cfg["labels2"]]] if cfg.get("labels2") else [])
+    if "sample_weight" in label:
+        # a weight-scale sensitive learner (strong regularisation): constant weights 6.0 are not weights 1.0
+        yk = numpy.array(list(labels) * 8)
+        centers = rng.randn(len(labels), 2)
+        Xk = numpy.vstack([centers[labels.index(v)] + rng.randn(2) for v in yk.tolist()])
+        wk = numpy.full(len(yk), 6.0) if cfg.get("clfw") == "const" else numpy.arange(len(yk)) % 5 + 1.0
+        clf = tp.TransformedTargetClassifier2(classifier=LogisticRegression(C=0.02), transformer=m.PermutationReciprocalTransformer(random_state=0)).fit(Xk, yk, sample_weight=wk)
+        plain = LogisticRegression(C=0.02).fit(Xk, yk, sample_weight=wk)
+        P1, P0 = clf.predict_proba(Xk), plain.predict_proba(Xk)
+        if not numpy.allclose(P1, P0, atol=1e-3):
+            return True, dict(sample_weight=wk[:6].tolist(), proba_row0=P1[0].tolist(), plain_row0_with_the_same_weights=P0[0].tolist())
+        return False, "weighted fit agrees with the plain weighted classifier"
     for seed in range(40):
         clf = tp.TransformedTargetClassifier2(classifier=LogisticRegression(C=10.0, max_iter=500), transformer=m.PermutationReciprocalTransformer(random_state=seed))
         for step, labs in enumerate(history):
@@ -528,6 +543,9 @@ def configs(tier):
             out.append(dict(kind="perm", part="transformer", labels=ls, labels2=None, seed=seed))
         if ls != "float-nan":
             out.append(dict(kind="perm", part="classifier", labels=ls, labels2=None, seed=None))
+            if ls == "012":
+                for clfw in ("const", "var"):
+                    out.append(dict(kind="perm", part="classifier", labels=ls, labels2=None, seed=None, clfw=clfw))
             if ls == "539":
                 out.append(dict(kind="perm", part="classifier", labels=ls, labels2=None, seed=None, tobj=True))
     # history: the same classifier instance refitted on another label set (other size / other labels)
